@@ -8,11 +8,13 @@ META = {
     "level": "proof",
     "text": "aifeyn_complexity is verified from its AST for label lists of any length and any parameter list: result = len(tree) ln(d+h) + sum over the integer "
             "labels of ln|c'| with d the number of distinct non-parameter non-integer labels, h = 1 iff a parameter or integer occurs, 0 read as 1 (strings are abstract "
-            "labels with the classification predicates the code uses). Bounded, not counted as proved: the routine, its renaming/param-list invariance and "
+            "labels with the classification predicates the code uses). Alignment: the writers region of generate_equations is verified from its AST: in every shape "
+            "iteration orig_trees/orig_aifeyn get exactly one physical line per original tree and extra_trees/extra_aifeyn one per rewritten tree, in list order (the pprint width "
+            "rule keeps every tree text on one line), the four files are truncated before the loop and the two cat commands overwrite their targets. Bounded, not counted as proved: the routine, its renaming/param-list invariance and "
             "fit_single.tree_to_aifeyn on random label lists against an independent implementation of the formula, and line i of aifeyn_<n>.txt against tree i for "
             "generated libraries (originals then rewritten trees).",
     "note": "A-str (abstract labels: isint/int_of/membership), A-float, sum extensionality and filter-counting lemmas assumed; d is the uninterpreted distinct-count of the "
-            "filtered list on both sides (len(set(.)) is not interpreted further). Alignment of the files is bounded only.",
+            "filtered list on both sides (len(set(.)) is not interpreted further). Alignment: the per-shape writers are under contract; that both cat commands join originals before rewritten trees is read off the two command strings (bounded check on generated libraries).",
     "technique": "contract-based deductive verification (AST->VC->SMT) + bounded runtime stand-ins on the real code",
 }
 CHECKER = "./bin/check C08 (pyvc on esr/generation/generator.py::aifeyn_complexity -> z3)"
@@ -32,6 +34,8 @@ def check(run):
     for f in r["failures"][:1]:
         found = True
         run.violation("c08:labels:%s" % ",".join(f["labels"]), f["error"], {"harness": "rt_c08.py", "payload": {"mode": "random", "seed": run.seed, "n_random": 400}})
+    wfailed, wsfailed, wfound = D.generation_writers(run, tier)
+    found = found or wfound
     groups = genjobs.job_groups(tier, run.seed, n_random=2 if tier == "quick" else 8)
     for g in groups:
         g[-1]["repeat"] = True          # the largest complexity of every library is generated twice into the same directory
@@ -47,6 +51,11 @@ def check(run):
     if failed and not found:
         from checks.C14 import report_unproved
         report_unproved(run, failed, False, "aifeyn_complexity")
+    if wfailed and not found and not run.violations:
+        from checks.C14 import report_unproved
+        report_unproved(run, wfailed, False, "generator.generate_equations (writers region)")
+    if not found:
+        D.report_structural(run, wsfailed, "frames", "pyvc/frames.py")
     run.assume("A-str", "A-float", "lemma library: sum extensionality, counting facts of filters (assumed)")
     run.trust("pyvc", "z3 5.1.0")
     return run.finish("proof", META["text"], CHECKER)
